@@ -88,9 +88,25 @@ func lookAlike(t *rapid.T, s string) string {
 	return s
 }
 
+var dataAttrShapes = []string{"data-x", "data-;a", "data-;", "data-a;", "data-A", "data-xmlfoo", "data-xml", "data-", "data-data-x", "data-data-;", "data-\u00e9", "data-a\"b", "data-a'b", "data-a=b",
+	"data-x-y", "data-1", "data--", "data-a:b", "DATA-UP", "data-onclick", "data-a<b", "dataset-x", "data"}
+
+// hostile spellings of an attribute name that must not be mistaken for the name itself
+func prefixedName(t *rapid.T, k string) string {
+	switch rapid.IntRange(0, 15).Draw(t, "nameprefix") {
+	case 0:
+		return rapid.SampledFrom([]string{"xml:", "xlink:", "xmlns:", "x-", "data-", "aria-", "ng-", ":", "_"}).Draw(t, "pfx") + k
+	case 1:
+		return k + rapid.SampledFrom([]string{":x", "-x", "x", ";", ".", "\x00"}).Draw(t, "sfx")
+	case 2:
+		return rapid.SampledFrom(dataAttrShapes).Draw(t, "datashape")
+	}
+	return k
+}
+
 func genAttr(t *rapid.T, attrs []string) string {
 	k, v := genAttrKV(t, attrs)
-	k = lookAlike(t, mangleCase(t, k))
+	k = prefixedName(t, lookAlike(t, mangleCase(t, k)))
 	switch rapid.IntRange(0, 9).Draw(t, "q") {
 	case 0:
 		return k
